@@ -110,6 +110,11 @@ def proofs(ctx):
     if not os.path.exists(os.path.join(C.COQ, vf)):
         res.update(ok=False, log='no theorem file ' + vf)
         return res
+    import pins
+    pb = pins.compare(pid)
+    if pb:
+        res.update(ok=False, log='pinned statements (coq/pins.json): ' + '; '.join(pb))
+        return res
     targets = [vf + 'o', 'gen/Hash_vectors.vo']
     if os.path.exists(os.path.join(C.COQ, 'Pins.v')):
         targets.append('Pins.vo')
@@ -812,6 +817,10 @@ def structure_history(ctx, g, kt, i, cycles=False, stats_ops=True):
             lines.append('stats m0')
             g.count('stats')
         lines += [g.rng.choice(['flush', 'syncall', 'syncdata']) + ' m0', 'snap db']
+        if g.rng.random() < 0.25:
+            # "any history" includes closing and re-opening with other creation parameters (they must be ignored)
+            lines += ['closeall', 'snap db', 'db d0 db', 'map m0 d0 %s m %s' % (kt, g.params(n=g.rng.choice([1, 4, 8, 32, 128, 1024])))]
+            g.count('reopen')
     lines += ['stats m0', 'closeall', 'snap db']
     return lines
 
